@@ -82,6 +82,7 @@ class AFS:
         self.clock = 1
         self.mtime = {}
         self.ino = {}
+        self.links = {}          # abs path of a symbolic link -> target string (links to regular files only)
         self.mkdirs(cwd)
         self.mkdirs(home)
 
@@ -111,10 +112,19 @@ class AFS:
     def add_token(self, path, tok, size=None):
         return self.add_content(path, ABuf.of([("T", tok, 0, size)]))
 
+    def add_link(self, path, target):
+        """A symbolic link at `path` pointing to the regular file `target` (harness side; not logged)."""
+        path = posixpath.normpath(posixpath.join(self.cwd, path))
+        self.mkdirs(posixpath.dirname(path))
+        self.links[path] = target
+        self.touch(path, entry=True)
+        return path
+
     # ---- resolution ------------------------------------------------------
-    def resolve(self, p):
+    def resolve(self, p, follow=True, _depth=0):
         """Absolute normalised path, or None when an intermediate component is
-        missing or not a directory (POSIX lookup, no symlinks)."""
+        missing or not a directory (POSIX lookup; symbolic links to regular files are followed when they are the last
+        component and `follow` is set; there are no links to directories)."""
         p = _s(p)
         if p == "":
             return None
@@ -130,6 +140,19 @@ class AFS:
                 cur = posixpath.dirname(cur)
             else:
                 cur = posixpath.join(cur, c)
+        if cur in self.links:
+            if full.endswith("/") or full.endswith("/."):
+                return None
+            if follow:
+                if _depth > 8:
+                    raise OSError(errno.ELOOP, "Too many levels of symbolic links", p)
+                save = self.cwd
+                self.cwd = posixpath.dirname(cur)
+                try:
+                    return self.resolve(self.links[cur], True, _depth + 1)
+                finally:
+                    self.cwd = save
+            return cur
         if (full.endswith("/") or full.endswith("/.")) and cur in self.files:
             return None
         return cur
@@ -163,7 +186,7 @@ class AFS:
     def children(self, d):
         pre = d.rstrip("/") + "/"
         names = set()
-        for x in itertools.chain(self.files, self.dirs):
+        for x in itertools.chain(self.files, self.dirs, self.links):
             if x.startswith(pre) and x != d:
                 names.add(x[len(pre):].split("/")[0])
         return sorted(names)
@@ -206,8 +229,13 @@ class AFS:
         self._op("link", s, d)
         self.files[d] = self.files[s]
 
-    def stat(self, p):
-        r = self.resolve(p)
+    def stat(self, p, follow=True):
+        r = self.resolve(p, follow)
+        if r is not None and r in self.links:
+            m = self.mtime.get(r, 1)
+            return types.SimpleNamespace(st_size=len(self.links[r]), st_mode=0o120777, st_ino=self.ino.setdefault(r, len(self.ino) + 100),
+                                         st_mtime_ns=m * 1000000000, st_mtime=float(m), st_ctime_ns=m * 1000000000, st_ctime=float(m),
+                                         st_dev=1, st_nlink=1, st_uid=0, st_gid=0, st_atime=float(m), st_atime_ns=m * 1000000000)
         if r is None or (r not in self.files and r not in self.dirs):
             raise FileNotFoundError(errno.ENOENT, "No such file or directory", _s(p))
         isdir = r in self.dirs
@@ -291,7 +319,11 @@ class AFS:
         raise Unsupported("open mode %r" % mode)
 
     def remove(self, p):
-        r = self.resolve(p)
+        r = self.resolve(p, follow=False)
+        if r is not None and r in self.links:
+            self._op("remove", r)
+            del self.links[r]
+            return
         if r is None or (r not in self.files and r not in self.dirs):
             raise FileNotFoundError(errno.ENOENT, "No such file or directory", _s(p))
         if r in self.dirs:
@@ -332,7 +364,20 @@ class AFS:
             self.dirs.add(d)
 
     def rename(self, src, dst, replace=False):
-        s, d = self.resolve(src), self.resolve(dst)
+        s, d = self.resolve(src, follow=False), self.resolve(dst, follow=False)
+        if s is not None and s in self.links:
+            self._parent_ok(d, dst)
+            if d in self.dirs:
+                raise IsADirectoryError(errno.EISDIR, "Is a directory", _s(dst))
+            self._op("rename", s, d)
+            self.files.pop(d, None)
+            self.links[d] = self.links.pop(s)
+            return
+        if d is not None and d in self.links and s in self.files:
+            self._op("rename", s, d)
+            del self.links[d]
+            self.files[d] = self.files.pop(s)
+            return
         if s is None or (s not in self.files and s not in self.dirs):
             raise FileNotFoundError(errno.ENOENT, "No such file or directory", _s(src))
         self._parent_ok(d, dst)
@@ -413,13 +458,14 @@ class AFS:
         c.nops = 0
         c.mtime = dict(self.mtime)
         c.ino = dict(self.ino)
+        c.links = dict(self.links)
         if tag is not None:
             c.tag = tag
         return c
 
     # ---- state comparison ----------------------------------------------------
     def snapshot(self):
-        return ({p: ABuf(n.content) for p, n in self.files.items()}, set(self.dirs))
+        return ({p: ABuf(n.content) for p, n in self.files.items()}, set(self.dirs) | {"@link:%s->%s" % kv for kv in self.links.items()})
 
     def diff(self, snap, ignore=()):
         """Paths whose presence or content differs from the snapshot."""
@@ -434,7 +480,7 @@ class AFS:
                 out.append(("created", p))
             elif not (files0[p] == self.files[p].content):
                 out.append(("changed", p))
-        for d in sorted(dirs0 ^ self.dirs):
+        for d in sorted(dirs0 ^ (self.dirs | {"@link:%s->%s" % kv for kv in self.links.items()})):
             if d in ignore:
                 continue
             out.append(("dir-removed" if d in dirs0 else "dir-created", d))
@@ -757,7 +803,23 @@ class _PathMod:
         return self._fs.isdir(p)
 
     def islink(self, p):
-        return False
+        r = self._fs.resolve(p, follow=False)
+        return r is not None and r in self._fs.links
+
+    def symlink(self, src, dst, **k):
+        fs = self._fs
+        d = fs.resolve(dst, follow=False)
+        fs._parent_ok(d, dst)
+        if d in fs.files or d in fs.dirs or d in fs.links:
+            raise FileExistsError(errno.EEXIST, "File exists", _s(dst))
+        fs._op("symlink", d)
+        fs.links[d] = _s(src)
+
+    def readlink(self, p):
+        r = self._fs.resolve(p, follow=False)
+        if r is None or r not in self._fs.links:
+            raise OSError(errno.EINVAL, "Invalid argument", _s(p))
+        return self._fs.links[r]
 
     def getsize(self, p):
         return self._fs.getsize(p)
@@ -830,9 +892,10 @@ class OsModel:
         return 4242
 
     def stat(self, p, **k):
-        return self._fs.stat(p)
+        return self._fs.stat(p, follow=k.get("follow_symlinks", True))
 
-    lstat = stat
+    def lstat(self, p, **k):
+        return self._fs.stat(p, follow=False)
 
     def walk(self, top, topdown=True):
         top = _s(top)
@@ -851,7 +914,8 @@ class OsModel:
             full = posixpath.join(base, n)
             out.append(types.SimpleNamespace(
                 name=n, path=full, is_file=lambda f=full, **k: fs.isfile(f), is_dir=lambda f=full, **k: fs.isdir(f),
-                stat=lambda f=full, **k: types.SimpleNamespace(st_size=fs.getsize(f)), is_symlink=lambda: False))
+                stat=lambda f=full, **k: fs.stat(f, follow=k.get("follow_symlinks", True)),
+                is_symlink=lambda f=full: fs.resolve(f, follow=False) in fs.links))
 
         class It(list):
             def __enter__(s):
